@@ -18,7 +18,7 @@ from .. import common as C
 from . import _an as A
 
 PROP = "C05"
-GEN_REGIONS = ["CoreKernels", "Analysis", "Utils"]
+GEN_REGIONS = ["CoreKernels", "Analysis", "Utils", "CudaKernels", "LpsdCore"]
 THEOREMS = {
     # the request arithmetic of compute_single_bin as translated each run IS the model (segmentation) / the requested frequency (omega)
     "SpecKitV.Props.AnalysisGen": ["gen_single_bin_seg_eq_model", "gen_single_bin_omega_eq"],
@@ -30,6 +30,18 @@ THEOREMS = {
     "SpecKitV.Props.C01": [
         "stats_win_only_csd_eq_ref", "stats_win_only_auto_eq_ref", "stats_detrend0_csd_eq_ref", "stats_detrend0_auto_eq_ref",
         "stats_poly_csd_eq_ref", "stats_poly_auto_eq_ref"],
+    # the glue between a plan and the kernels as translated each run (Gen/LpsdCore: `_lpsd_core` with its two dict caches and the 18-way
+    # dispatch, the kernel section of `compute_single_bin`, plan()'s validation and band restriction) IS the model
+    "SpecKitV.Props.LpsdCoreGen": [
+        "LpsdCoreGen.gen_build_window_spec", "LpsdCoreGen.gen_build_window_flag", "LpsdCoreGen.gen_lpsd_core_step", "LpsdCoreGen.gen_lpsd_core_fold",
+        "LpsdCoreGen.gen_lpsd_core_rows", "LpsdCoreGen.gen_lpsd_core_raises_iff", "LpsdCoreGen.dispatchWith_numba", "LpsdCoreGen.genCuda6_eq_genNumba6",
+        "LpsdCoreGen.dispatchWith_genFamily", "LpsdCoreGen.gen_lpsd_core_eq_model", "LpsdCoreGen.gen_lpsd_core_sums",
+        "LpsdCoreGen.gen_lpsd_core_eq_ref_cross", "LpsdCoreGen.gen_lpsd_core_eq_ref_auto", "LpsdCoreGen.gen_lpsd_core_bin_local",
+        "LpsdCoreGen.gen_lpsd_core_band", "LpsdCoreGen.gen_lpsd_core_order1_add_line_auto", "LpsdCoreGen.lpsdWindow_kaiser",
+        "LpsdCoreGen.lpsdWindow_kaiser_dft_even", "LpsdCoreGen.lpsdWindow_other", "LpsdCoreGen.gen_single_window",
+        "LpsdCoreGen.gen_single_bin_section_eq_model", "LpsdCoreGen.gen_single_bin_eq_lpsdCore", "LpsdCoreGen.gen_plan_validate_arrays",
+        "LpsdCoreGen.gen_plan_validate_eq_model", "LpsdCoreGen.gen_plan_validate_accepts_safe", "LpsdCoreGen.gen_plan_band_eq_model",
+        "LpsdCoreGen.gen_plan_band_none"],
     "SpecKitV.Props.C05": ["lpsdCore_eq_ref_cross", "lpsdCore_eq_ref_auto", "lpsdCore_bin_local", "lpsdCore_band", "winSums_spec", "lpsdCore_single",
                            "lpsdCore_order1_add_line_auto", "lpsdCore_order1_add_line_cross"],
 }
@@ -39,10 +51,26 @@ CONTRACTS = [
     "np.round is round-half-to-even, Python round() on a float is round-half-to-even, round_half_up(v) = floor(v + 1/2)",
     "_build_Q returns an orthonormal basis of the polynomials of degree <= order on the L-point grid (C01's contract; "
     "the oracle's reference builds its own basis)",
+    # contracts of the translated region LpsdCore (lean/SpecKitV/Np/LpsdCore.lean; definitions, exercised by the genlpsdcore / gensinglebin /
+    # genplanvalidate / genplanband runs against the real code)
+    "Python dict used as a cache ({} / k in d / d[k] / d.get(k) / d[k] = v) = association list read with Model.lookup, newest entry first "
+    "(NpLC.dictEmpty, dictHas, dictGet, dictGetOpt, dictSet); d[k] of a missing key (KeyError) is a stated default, never reached behind `k in d`",
+    "np.sum(w) = left-to-right sum (NpLC.sum; NumPy's pairwise order differs by rounding only); a[:stop] with negative stop counts from the end (NpLC.sliceTo); "
+    "m.any() / np.any(m) (NpLC.any); a[mask] = elements at the True positions in order (NpLC.maskSelect); [d for d, keep in zip(l, mask) if keep] "
+    "(NpLC.zipFilter); np.isfinite(x) = (x - x == 0) (NpLC.isfinite)",
+    "np.kaiser(M, beta) / scipy.signal.windows.kaiser(M, beta) = I0(beta*sqrt(1-((n-(M-1)/2)/((M-1)/2))^2))/I0(beta), n < M (NpLC.kaiser; used only in "
+    "lpsdWindow_kaiser*); the window callable itself, _build_Q and _select_backend are PARAMETERS of the translated code (NpLC.WinFunc, functions)",
+    "the 18 kernel entry points are fields of NpLC.KernelFamily named as in the source; which names serve which backend string is NpLC.KernelFamily.pick "
+    "('cuda' -> *_cuda, 'numba' -> plain, otherwise *_np); the NumPy fallbacks enter the theorems as an abstract Kernels6 with the hypothesis "
+    "Agree6 (they agree with the translated Numba kernels on calls with >= 1 segment: C01's business)",
+    "a raise is modelled by a flag: every translated function returns (raised, value); values after a raise are unspecified in Python and are "
+    "whatever the straight-line code computes here; time.perf_counter() and everything derived from it is ()",
 ]
 ASSUMPTIONS = [
-    "the per-bin loop, its window cache and its (L, order) basis cache, the band mask and the single-bin segmentation are hand-modelled "
-    "(Model/Analyzer.lean); the tie to analysis.py is the differential run (windows / segmentations) plus the oracle on the real code",
+    "the per-bin loop with its window cache and its (L, order) basis cache, the 18-way kernel dispatch, the kernel section of compute_single_bin, "
+    "plan()'s validation and band restriction are TRANSLATED from analysis.py on every run (Gen/LpsdCore) and proved equal to the hand model "
+    "(Props/LpsdCoreGen); still tied by correspondence only: compute()'s collection of the rows into arrays and its nan_to_num, the request "
+    "arithmetic of compute_single_bin before its kernel section other than the segmentation statement (Gen/Analysis), the Jdes search glue of plan()",
     "the kernels are abstract in Model.coreLoop_eq_map; their meaning is C01's theorems over the translated Numba source "
     "(NumPy fallbacks and CUDA: see C01)",
     "rounding / fastmath re-association are covered by the stated forward tolerance (_an.bin_tol), not by theorem",
@@ -53,7 +81,9 @@ RULE = ("oracle cases = (record kind x auto/cross x layout, N in 300..3000 plus 
         "_an.options over 4 schedulers x orders -1..2 x windows {kaiser(psll), default np.kaiser, scipy kaiser, hann, L-hashed callable} x backends "
         "{numba, numpy}) each followed by single-bin requests (by L and by fres), bands with edges ON plan frequencies / between bins / empty, "
         "and a second analyzer with another order/window on the same plan; correspondence cases = (L, psll) Kaiser windows and (N, L, olap) "
-        "single-bin segmentations incl. exact rounding ties. distinct by the tuple shown in the key; non-trivial = plan with >= 2 bins and some K >= 2 "
+        "single-bin segmentations incl. exact rounding ties, and (generated region LpsdCore) small real/user plans (<= 14 bins, L <= 260, index blocks in "
+        "and out of order) through Gen._lpsd_core vs the real _lpsd_core rows, one single-bin request each, <= 5 bands each through Gen.plan_band vs "
+        "the real plan(band=), one accepted/corrupted scheduler output each through Gen.plan_validate vs the real plan(). distinct by the tuple shown in the key; non-trivial = plan with >= 2 bins and some K >= 2 "
         "(full), K >= 2 or L >= 3 (single-bin), 0 < #in-band < #bins or an empty band (band), L >= 3 (kaiser), navg >= 2 (segmentation)")
 
 U = 2.0 ** -53
@@ -853,7 +883,339 @@ def correspondence(ctx) -> C.Part:
                 P.disagreements.append({"op": "fres", "N": N, "fs": fs, "fres": fres, "fs/fres": q, "model_L": Lm, "impl_L": Li})
             elif Li >= 2:
                 P.nontrivial.add(("fres", N, Li))
+    # (c) the glue as TRANSLATED from analysis.py on this run (Gen/LpsdCore) executed in Float against the real methods; the random stream is a
+    # child generator seeded by one integer drawn here, after everything above (the streams above are unchanged)
+    gen_region_correspondence(ctx, P, np.random.default_rng(int(rng.integers(0, 2 ** 62))))
     return P
+
+
+
+# ---------------------------------------------------------------- generated region LpsdCore vs the real methods
+def _tables(an, Ls, Ks, order_cfg: int):
+    """what the translated code takes as parameters, computed by the REAL library: window values for every length the code may ask for
+    (L-1 .. L+2, so that the request is decided by the translated source, not by this harness), _build_Q for both polynomial orders,
+    _select_backend for every segment count"""
+    import speckit.analysis as M
+    wf = an.config["win_func"]
+    alpha = an.config.get("alpha", None)
+    isk = wf in (M.np_kaiser, M.sp_kaiser)
+    beta = float(alpha * np.pi) if (isk and alpha is not None) else 0.0
+    ms = sorted({m for L in Ls for m in (L - 1, L, L + 1, L + 2) if m >= 1})
+    wt = []
+    for m in ms:
+        try:
+            v = np.asarray(wf(m, beta) if isk else wf(m), dtype=float)
+        except Exception:
+            continue
+        wt.append(f"{m} {C.f2h(beta)} {C.arr(v)}")
+    qt = []
+    for L in sorted(set(Ls)):
+        for o in (1, 2):
+            try:
+                Q = np.asarray(M._build_Q(int(L), o), dtype=float)
+            except Exception:
+                continue
+            qt.append(f"{L} {o} {Q.shape[0]} {Q.shape[1]} " + " ".join(C.f2h(float(v)) for v in Q.ravel()))
+    st = []
+    for K in sorted(set(Ks)):
+        st.append(f"{K} {M._select_backend(int(K), an.config['backend'])}")
+    head = f"{1 if isk else 0}"
+    return (0.0 if alpha is None else float(alpha)), head, f"{len(wt)} " + " ".join(wt), f"{len(qt)} " + " ".join(qt), f"{len(st)} " + " ".join(st)
+
+
+def _scales(x1, x2, D, L, w):
+    a = max(float(np.abs(x1[int(s):int(s) + L] * w).sum()) for s in D) + 1e-300
+    b = a if x2 is None else max(float(np.abs(x2[int(s):int(s) + L] * w).sum()) for s in D) + 1e-300
+    return a, b
+
+
+def _row_mismatch(gen, real, x1, x2, D, L, w, omega, order):
+    """first field of a generated row that is off the real row by more than twice the forward budget (both sides carry one), or None"""
+    a, b = _scales(x1, x2, D, L, w)
+    tXX, tYY, tXY, tM2 = A.bin_tol(L, omega, a, b, order)
+    s1 = float(np.sum(w))
+    wt = 64 * U * L * max(float(np.abs(w).max()), 1e-300) * max(float(np.abs(w).sum()), 1e-300) + 1e-12 * max(s1 * s1, 1e-300)
+    tol = {"XYre": 2 * tXY, "XYim": 2 * tXY, "XX": 2 * tXX, "YY": 2 * tYY, "S12": 2 * wt, "S2": 2 * wt, "M2": 2 * tM2}
+    for k in ("XYre", "XYim", "XX", "YY", "S12", "S2", "M2"):
+        if not abs(gen[k] - real[k]) <= tol[k] + 1e-300:
+            return k, gen[k], real[k], tol[k]
+    return None
+
+
+def small_sched(seed: int, corrupt: str = ""):
+    """a user scheduler with few bins and short segments (repeated / neighbouring lengths, unsorted starts); `corrupt` names one defect the
+    validation of plan() has to reject"""
+    def small_plan(N, fs, olap, Lmin=1, **kw):
+        rng = np.random.default_rng(seed)
+        lo = max(1, int(Lmin))
+        hi = max(lo, min(int(N), 28))
+        base = [int(v) for v in rng.integers(lo, hi + 1, size=3)]
+        Ls = [base[0], min(hi, base[0] + 1), base[0], base[1], max(lo, base[1] - 1), base[2], base[0], int(N) if rng.random() < 0.3 else base[1]]
+        nb = int(rng.integers(3, len(Ls) + 1))
+        Ls = Ls[:nb]
+        f = np.sort(rng.uniform(0.002, 0.498, size=nb)) * float(fs)
+        if seed % 4 == 0:
+            f[-1] = f[-2]                     # a repeated frequency
+        D = []
+        for Lj in Ls:
+            K = int(rng.choice([1, 2, 3, 5]))
+            d = rng.integers(0, int(N) - Lj + 1, size=K)
+            if rng.random() < 0.5:
+                d[-1] = int(N) - Lj           # the last admissible start
+            D.append(d.astype(np.int64))
+        L = np.array(Ls, dtype=np.int64)
+        r = float(fs) / L
+        Ks = np.array([len(d) for d in D], dtype=np.int64)
+        out = {"f": f, "r": r, "b": f / r, "L": L, "K": Ks, "navg": Ks.copy(), "D": D, "O": np.full(nb, float(olap))}
+        j = int(rng.integers(0, nb))
+        if corrupt == "K":
+            out["K"][j] += 1
+        elif corrupt == "high":
+            D[j][0] = int(N) - Ls[j] + 1
+        elif corrupt == "neg":
+            D[j][-1] = -1
+        elif corrupt == "empty":
+            D[j] = np.zeros(0, dtype=np.int64)
+            out["K"][j] = 0
+        elif corrupt == "L0":
+            out["L"][j] = 0
+        elif corrupt == "Lmin":
+            out["L"][j] = max(1, int(Lmin) - 1)     # below Lmin when Lmin >= 2 (then rejected unless the scheduler is lpsd_plan)
+        elif corrupt == "lenK":
+            out["K"] = out["K"][:-1]
+        elif corrupt == "lenD":
+            out["D"] = D[:-1]
+        return out
+    small_plan.__name__ = f"small_plan_{seed}_{corrupt or 'ok'}"
+    return small_plan
+
+
+def _plan_line(p) -> str:
+    D = [np.asarray(d, dtype=np.int64) for d in p["D"]]
+    return " ".join([C.arr(np.asarray(p["f"], dtype=float)), C.arr(np.asarray(p["r"], dtype=float)), C.arr(np.asarray(p["b"], dtype=float)),
+                     C.iarr(np.asarray(p["L"])), C.iarr(np.asarray(p["K"])), C.iarr(np.asarray(p["navg"])), C.arr(np.asarray(p["O"], dtype=float)),
+                     str(len(D))] + [C.iarr(d) for d in D])
+
+
+def gen_region_correspondence(ctx, P: C.Part, rng: np.random.Generator) -> None:
+    import speckit.analysis as M
+    from speckit.analysis import SpectrumAnalyzer
+    drv = ctx.driver
+    t_start = ctx.time_left()
+    winkinds = ["default", "kaiser", "hashwin", "hann", "spkaiser"]
+    n_cases = ctx.scale(36, 240)
+    for t in range(n_cases):
+        if ctx.time_left() < 25 or t_start - ctx.time_left() > (18.0 if not ctx.thorough else 240.0) or len(P.disagreements) >= 25:
+            P.notes.append(f"generated-region run stopped after {t} cases (time budget or 25 disagreements)")
+            break
+        N = int(rng.integers(40, 220))
+        cross = bool(rng.random() < 0.4)
+        order = int([-1, 0, 1, 2][t % 4])
+        wk = winkinds[t % len(winkinds)]
+        be = "numpy" if (t // 2) % 2 else "numba"
+        fs = float(rng.choice([1.0, 2.0, 250.0]))
+        x1 = A.record(rng, N, str(rng.choice(["noise", "offset", "drift"])))
+        x2 = (0.5 * np.roll(x1, 2) + A.record(rng, N, "noise")) if cross else None
+        data = np.ascontiguousarray(np.stack([x1, x2])) if cross else x1
+        seed = int(rng.integers(0, 2 ** 31))
+        o: Dict[str, Any] = {"order": order, "olap": float(rng.choice([0.0, 0.5, 0.3])), "Jdes": int(rng.integers(4, 9)), "Kdes": int(rng.choice([1, 2, 5])),
+                             "bmin": 1.0, "Lmin": int(rng.choice([1, 1, 2, 4])), "backend": be, "winkind": wk,
+                             "scheduler": f"small:{seed}" if t % 3 else str(rng.choice(["ltf", "lpsd", "new_ltf", "vectorized_ltf"]))}
+        if wk in ("kaiser", "default", "spkaiser"):
+            o["psll"] = float(rng.choice([60.0, 200.0, float(rng.uniform(40, 200))]))
+        case = {"data": data, "layout": "2xN" if cross else "1d", "fs": fs, "opts": o, "kind": "gen-region"}
+        kw = real_kwargs(dict(case, opts={k: v for k, v in o.items()}))
+        if isinstance(kw["scheduler"], str) and kw["scheduler"].startswith("small:"):
+            kw["scheduler"] = small_sched(seed)
+        where = {"op": "genlpsdcore", "N": N, "cross": cross, "order": order, "win": wk, "backend": be, "scheduler": o["scheduler"], "fs": fs,
+                 "Lmin": o["Lmin"], "olap": o["olap"], "Jdes": o["Jdes"], "Kdes": o["Kdes"], "psll": o.get("psll")}
+        try:
+            an = SpectrumAnalyzer(data, fs, **kw)
+            plan = an.plan()
+        except Exception:
+            P.hit("gen:plan-raised(skipped)")
+            continue
+        nf = int(plan["nf"])
+        Ls = [int(v) for v in plan["L"]]
+        Ds = [np.asarray(d, dtype=np.int64) for d in plan["D"]]
+        if nf > 14 or max(Ls) > 260 or sum(len(d) * L for d, L in zip(Ds, Ls)) > 40000:
+            P.hit("gen:plan-too-large(skipped)")
+            continue
+        # ---- (c1) the per-bin loop with its caches
+        alpha, isk, wt, qt, st = _tables(an, Ls, [len(d) for d in Ds], order)
+        xa1 = np.ascontiguousarray(an.x1, dtype=float)
+        xa2 = np.ascontiguousarray(an.x2, dtype=float) if cross else np.zeros(0)
+        idx = list(range(nf))
+        if t % 5 == 4 and nf >= 3:               # a sub-block of indices, out of order, one repeated: caches meet lengths in another sequence
+            idx = [int(v) for v in rng.permutation(nf)[: max(2, nf - 1)]] + [int(rng.integers(0, nf))]
+        real_raised, rows = None, None
+        try:
+            rows = an._lpsd_core(np.asarray(idx, dtype=np.int64))
+        except Exception as ex:  # noqa
+            real_raised = repr(ex)
+        bins = " ".join(f"{C.f2h(float(plan['f'][j]))} {Ls[j]} {C.iarr(Ds[j])}" for j in range(nf))
+        line = (f"genlpsdcore {1 if cross else 0} {order} {an.config['backend']} {C.f2h(fs)} {int(an.nx)} {C.f2h(alpha)} {isk} "
+                f"{C.arr(xa1)} {C.arr(xa2)} {wt} {qt} {st} {nf} {bins} {C.iarr(idx)}")
+        ans = drv.ask(line)
+        P.cases += 1
+        P.hit("genlpsdcore")
+        P.hit(f"genlpsdcore:order={order}")
+        P.hit(f"genlpsdcore:{'cross' if cross else 'auto'}/{be}/{wk}")
+        if len(set(Ls[j] for j in idx)) < len(idx):
+            P.hit("genlpsdcore:repeated-L(cache hit)")
+        if nf >= 2:
+            P.nontrivial.add(("genlpsdcore", N, nf, order, cross, wk, be, tuple(idx)))
+        if ans.startswith("ERR"):
+            P.disagreements.append(dict(where, what="driver error", answer=ans[:200]))
+            continue
+        parts = ans.split(" | ")
+        g_raised = parts[0].strip() == "1"
+        if real_raised is not None or g_raised:
+            if (real_raised is not None) != g_raised:
+                P.disagreements.append(dict(where, what="raise flag", real_raised=real_raised, generated_raised=g_raised, idx=idx))
+            else:
+                P.hit("genlpsdcore:both-raise")
+            continue
+        if len(parts) - 1 != len(rows):
+            P.disagreements.append(dict(where, what="row count", real=len(rows), generated=len(parts) - 1))
+            continue
+        wf = an.config["win_func"]
+        for rr, gp in zip(rows, parts[1:]):
+            tk = gp.split()
+            j = int(rr[0])
+            g = {"XYre": C.h2f(tk[1]), "XYim": C.h2f(tk[2]), "XX": C.h2f(tk[3]), "YY": C.h2f(tk[4]), "S12": C.h2f(tk[5]), "S2": C.h2f(tk[6]), "M2": C.h2f(tk[7])}
+            r_ = {"XYre": float(np.real(rr[1])), "XYim": float(np.imag(rr[1])), "XX": float(rr[2]), "YY": float(rr[3]), "S12": float(rr[4]),
+                  "S2": float(rr[5]), "M2": float(rr[6])}
+            L = Ls[j]
+            w = np.asarray(wf(L + 1, an.config["alpha"] * np.pi)[:-1] if isk == "1" else wf(L), dtype=float)
+            if len(w) != L:                       # scale only (tolerances); the values compared come from the two implementations
+                w = np.ones(L)
+            om = 2.0 * np.pi * float(plan["f"][j]) / fs
+            bad = None if int(tk[0]) == j else ("index", int(tk[0]), j, 0)
+            bad = bad or _row_mismatch(g, r_, xa1, xa2 if cross else None, Ds[j], L, w, om, order)
+            if bad:
+                P.disagreements.append(dict(where, what=f"row field {bad[0]}", bin=j, L=L, K=len(Ds[j]), generated=bad[1], real=bad[2], tol=bad[3], idx=idx))
+                break
+        if t < 2:
+            P.sample(dict(where, nf=nf, L=Ls[:6], idx=idx[:6]))
+        # ---- (c2) the kernel section of compute_single_bin
+        segL = int(rng.choice([Ls[0], max(1, Ls[-1] - 1), int(rng.integers(1, min(N, 40) + 1))]))
+        freq = float(rng.uniform(0.01, 0.49)) * fs
+        sreal, sraised = None, None
+        try:
+            sreal = an.compute_single_bin(freq, L=segL)
+        except Exception as ex:  # noqa
+            sraised = repr(ex)
+        if sreal is not None:
+            starts = np.asarray(sreal.D[0], dtype=np.int64)
+            alpha, isk, wt, qt, st = _tables(an, [segL], [len(starts)], order)
+            ans = drv.ask(f"gensinglebin {1 if cross else 0} {order} {an.config['backend']} {C.f2h(fs)} {int(an.nx)} {C.f2h(alpha)} {isk} "
+                          f"{C.arr(xa1)} {C.arr(xa2)} {wt} {qt} {st} {C.f2h(freq)} {C.f2h(float(sreal.r[0]))} {segL} {C.iarr(starts)}")
+            P.cases += 1
+            P.hit("gensinglebin")
+            if segL >= 3 or len(starts) >= 2:
+                P.nontrivial.add(("gensinglebin", N, segL, len(starts), order, cross, wk, be))
+            w2 = dict(where, op="gensinglebin", segL=segL, freq=freq, K=len(starts))
+            tk = ans.split()
+            if ans.startswith("ERR") or len(tk) != 8:
+                P.disagreements.append(dict(w2, what="driver error", answer=ans[:200]))
+            elif tk[0] != "0":
+                P.disagreements.append(dict(w2, what="raise flag", generated_raised=True, real_raised=None))
+            else:
+                g = {"XX": C.h2f(tk[1]), "YY": C.h2f(tk[2]), "XYre": C.h2f(tk[3]), "XYim": C.h2f(tk[4]), "S12": C.h2f(tk[5]), "S2": C.h2f(tk[6]), "M2": C.h2f(tk[7])}
+                r_ = {"XX": float(sreal.XX[0]), "YY": float(sreal.YY[0]), "XYre": float(np.real(sreal.XY[0])), "XYim": float(np.imag(sreal.XY[0])),
+                      "S12": float(sreal.S12[0]), "S2": float(sreal.S2[0]), "M2": float(sreal.M2[0])}
+                w = np.asarray(wf(segL + 1, an.config["alpha"] * np.pi)[:-1] if isk == "1" else wf(segL), dtype=float)
+                if len(w) != segL:
+                    w = np.ones(segL)
+                bad = _row_mismatch(g, r_, xa1, xa2 if cross else None, starts, segL, w, 2.0 * np.pi * freq / fs, order)
+                if bad:
+                    P.disagreements.append(dict(w2, what=f"field {bad[0]}", generated=bad[1], real=bad[2], tol=bad[3]))
+        # ---- (c3) plan(): band restriction of every per-bin field (exact comparison), with and without band=
+        if isinstance(kw["scheduler"], str) or t % 3:
+            f_all = np.asarray(plan["f"], dtype=float)
+            bands = gen_bands(rng, f_all, fs, 4) + [None]
+            pl = _plan_line(plan)
+            for bd in bands[:5]:
+                kwb = dict(kw)
+                if isinstance(kw["scheduler"], str) is False:
+                    kwb["scheduler"] = small_sched(seed)
+                breal, braised = None, None
+                try:
+                    breal = SpectrumAnalyzer(data, fs, **dict(kwb, band=bd)).plan() if bd is not None else SpectrumAnalyzer(data, fs, **kwb).plan()
+                except ValueError as ex:
+                    braised = repr(ex)
+                except Exception as ex:  # noqa
+                    P.disagreements.append(dict(where, op="genplanband", band=bd, what="real plan() raised something else than ValueError", error=repr(ex)))
+                    continue
+                ans = drv.ask(f"genplanband {0 if bd is None else 1} {C.f2h(0.0 if bd is None else bd[0])} {C.f2h(0.0 if bd is None else bd[1])} {pl}")
+                P.cases += 1
+                P.hit("genplanband:none" if bd is None else "genplanband")
+                w3 = dict(where, op="genplanband", band=None if bd is None else [float(bd[0]), float(bd[1])])
+                ps = [v.strip() for v in ans.split("|")]
+                if ans.startswith("ERR") or len(ps) != 11:
+                    P.disagreements.append(dict(w3, what="driver error", answer=ans[:200]))
+                    continue
+                if (ps[0].strip() == "1") != (braised is not None):
+                    P.disagreements.append(dict(w3, what="raise flag", generated_raised=ps[0].strip() == "1", real_raised=braised))
+                    continue
+                if braised is not None:
+                    P.hit("genplanband:both-raise")
+                    continue
+                fl = lambda s_: [C.h2f(v) for v in s_.split()]      # noqa: E731
+                il = lambda s_: [int(v) for v in s_.split()]        # noqa: E731
+                gD = [il(v) for v in ps[10].split(";")] if int(ps[9]) else []
+                gen_fields = {"nf": int(ps[1]), "f": fl(ps[2]), "r": fl(ps[3]), "b": fl(ps[4]), "L": il(ps[5]), "K": il(ps[6]), "navg": il(ps[7]), "O": fl(ps[8]),
+                              "D": gD}
+                real_fields = {"nf": int(breal["nf"]), "D": [[int(v) for v in d] for d in breal["D"]]}
+                for k in ("f", "r", "b", "O"):
+                    real_fields[k] = [float(v) for v in breal[k]]
+                for k in ("L", "K", "navg"):
+                    real_fields[k] = [int(v) for v in breal[k]]
+                if 0 < real_fields["nf"] < nf:
+                    P.nontrivial.add(("genplanband", N, nf, real_fields["nf"], float(bd[0]), float(bd[1])))
+                for k in ("nf", "f", "r", "b", "L", "K", "navg", "O", "D"):
+                    if gen_fields[k] != real_fields[k]:
+                        P.disagreements.append(dict(w3, what=f"field {k}", generated=str(gen_fields[k])[:200], real=str(real_fields[k])[:200]))
+                        break
+        # ---- (c4) plan(): validation of a scheduler's output (accept / reject), incl. the lpsd_plan exemption from Lmin
+        corrupt = ["", "K", "high", "neg", "empty", "L0", "Lmin", "lenK", "lenD"][t % 9]
+        as_lpsd = (t % 7 == 3)
+        sched = small_sched(seed + 1, corrupt)
+        raw = sched(N=N, fs=fs, olap=0.5, Lmin=o["Lmin"])
+        if corrupt in ("lenK", "lenD"):
+            pass
+        saved = M.lpsd_plan
+        vraised = None
+        try:
+            if as_lpsd:
+                M.lpsd_plan = sched               # `scheduler_func != lpsd_plan` is an identity test against the module's name
+            kwv = dict(kw, scheduler=sched)
+            SpectrumAnalyzer(data, fs, **kwv).plan()
+        except ValueError as ex:
+            vraised = repr(ex)
+        except Exception as ex:  # noqa
+            vraised = "other:" + repr(ex)
+        finally:
+            M.lpsd_plan = saved
+        try:
+            an_cfg = SpectrumAnalyzer(data, fs, **kw)
+            olap_used = float(an_cfg.config["final_olap"])
+            raw = sched(N=N, fs=fs, olap=olap_used, Lmin=o["Lmin"])
+            ans = drv.ask(f"genplanvalidate {int(o['Lmin'])} {1 if as_lpsd else 0} {N} {_plan_line(raw)}")
+        except Exception as ex:  # noqa
+            ans = "ERR harness " + repr(ex)
+        P.cases += 1
+        P.hit(f"genplanvalidate:{corrupt or 'ok'}{'/lpsd' if as_lpsd else ''}")
+        P.nontrivial.add(("genplanvalidate", N, seed, corrupt, as_lpsd))
+        tk = ans.split()
+        w4 = dict(where, op="genplanvalidate", corrupt=corrupt, as_lpsd=as_lpsd, seed=seed + 1)
+        if ans.startswith("ERR") or len(tk) != 3:
+            P.disagreements.append(dict(w4, what="driver error", answer=ans[:200]))
+        elif (tk[0] == "1") != (vraised is not None):
+            P.disagreements.append(dict(w4, what="accept/reject", generated_raised=tk[0] == "1", real_raised=vraised))
+        elif vraised is None and (int(tk[1]) != len(raw["f"]) or int(tk[2]) != len(raw["D"])):
+            P.disagreements.append(dict(w4, what="nf / number of D entries", generated=tk[1:], real=[len(raw["f"]), len(raw["D"])]))
 
 
 # ---------------------------------------------------------------- replay
